@@ -5,6 +5,11 @@ import json, subprocess
 LOOPNOTE = 'Trusts: A1 token contract (lower-case tag names, exact serialiser/tokeniser round trip), sanitizeAttrs replaced by an arbitrary-result stub, policy tables of at most 2 entries per kind (an upper bound that is general for one step: one step looks up one name per table), z3 5.1 / cvc5 1.0, go/ssa semantics as interpreted.'
 
 CLAIMED = {
+ "C12": dict(
+   text="Unit-level symbolic execution of the real sanitizeAttrs on audio/img/link/script/video/iframe/other with up to 2 (quick) / 3 (thorough) attributes (keys crossorigin/sandbox/other/free, free values, sandbox values of up to 3/4 tokens), with crossorigin forcing and/or a sandbox allowlist in which every one of the fourteen documented tokens is allowed or not by its own symbolic boolean (all 2^14 subsets in one run). SMT decides per path: every crossorigin equals anonymous and one exists; a sandbox attribute exists, every token of the emitted value (re-split on white space) is a listed token, no token occurs twice, the value is in canonical single-space form. The real RequireSandboxOnIFrame/AllowIFrames are executed on each documented value and the resulting table compared with the documented token.",
+   note="Trusts: strings.Fields / strings.Join models (validated differentially), Fields bounded to 3/4 tokens per sandbox value (longer values cut and counted), z3 5.1 / cvc5 1.0, go/ssa semantics as interpreted.",
+   technique="symbolic execution of go/ssa + SMT strings (unit harness)", design="5 C12"),
+
  "C11": dict(
    text="Unit-level symbolic execution of the real sanitizeAttrs (go/ssa) on an element with up to 2 (quick) / 3 (thorough) attributes whose keys range over href/rel/target/other/free and whose values are free strings, for concrete combinations of the five link options (8 quick / all 31 thorough) and elements a/area/link/other. On every path SMT decides the oracle written from the statement: required rel tokens present as white-space delimited tokens (regular-language membership on the emitted rel), target=_blank on host-qualified <a>, noopener whenever target=_blank, existing rel kept as prefix, no required token appended twice. A rel-token helper, if present, is first proven equivalent to the regular token predicate on its own body and then summarised. Counterexamples are refined to replayable URLs and replayed through the real sanitizeAttrs.",
    note="Trusts: validURL replaced by an arbitrary verdict/value stub (C03's subject); url.Parse as an uninterpreted function (A3), the oracle's 'has a host' uses the same function; Fields bounded to 4/5 tokens in the helper lemma; z3 5.1 / cvc5 1.0; go/ssa semantics as interpreted.",
